@@ -80,8 +80,10 @@ H['detect'] = dict(
     unwind=9, timeout=1200,
     functions=['Oomd::PressureAbove::run', 'Oomd::PressureRisingBeyond::run', 'Oomd::MemoryAbove::run', 'Oomd::MemoryReclaim::run', 'Oomd::SwapFree::run', 'Oomd::Exists::run', 'Oomd::NrDyingDescendants::run', 'Oomd::OomdContext::', 'Oomd::CgroupContext::'],
     variants={
-        'quick': [dict(name='%s_t%d_p%d' % (DET_NAMES[d], 1 if d >= 5 else 3, pt), defs={'H_DET': d, 'H_T': 1 if d >= 5 else 3, 'H_PAT': pt}, reach_optional=True) for d in range(1, 8) for pt in ((1,) if d == 5 else (1, 2))],
-        'thorough': [dict(name='%s_t%d_p%d' % (DET_NAMES[d], 2 if d >= 5 else 4, pt), defs={'H_DET': d, 'H_T': 2 if d >= 5 else 4, 'H_PAT': pt, 'H_SWAPBITS': 36}, reach_optional=True, timeout=3000) for d in range(1, 8) for pt in ((1,) if d == 5 else (0, 1, 2))],
+        'quick': [dict(name='%s_t%d_p%d_x%x' % (DET_NAMES[d], 1 if d >= 5 else 3, pt, m), defs={'H_DET': d, 'H_T': 1 if d >= 5 else 3, 'H_PAT': pt, 'H_EXMASK': m}, reach_optional=True)
+                  for d in range(1, 8) for (pt, m) in (((1, 0x3f),) if d == 5 else ((1, 0x3f), (2, 0x36)))],
+        'thorough': [dict(name='%s_t%d_p%d_x%x' % (DET_NAMES[d], 2 if d >= 5 else 4, pt, m), defs={'H_DET': d, 'H_T': 2 if d >= 5 else 4, 'H_PAT': pt, 'H_EXMASK': m, 'H_SWAPBITS': 36}, reach_optional=True, timeout=3000)
+                     for d in range(1, 8) for (pt, m) in (((1, 0xff),) if d == 5 else ((1, 0xff), (2, 0xff), (1, 0xdb), (2, 0x6d), (0, 0xd7), (1, 0x3c), (2, 0xc3)))],
     },
 )
 
@@ -105,6 +107,32 @@ H['path'] = dict(
     variants={
         'quick': _path_variants((0, 1, 2, 3), (1, 2), 600),
         'thorough': _path_variants((0, 1, 2, 3, 4, 5), (1, 2, 3), 3000),
+    },
+)
+
+KILL_OOMD = [('plugins/BaseKillPlugin.cpp', ['-include', 'libc_redirect.h', '-include', 'noreg.h']), 'plugins/DumpKillInfoNoOp.cpp', ('util/Util.cpp', ['-DgenerateUuid=vf_unused_generateUuid']),
+             'engine/Ruleset.cpp', 'engine/DetectorGroup.cpp', 'OomdContext.cpp', 'CgroupContext.cpp', 'include/CgroupPath.cpp', 'util/PluginArgParser.cpp', 'PluginRegistry.cpp', 'PluginConstructionContext.cpp']
+KILL_ENV = ['env/world.cpp', 'env/world_kill.cpp', 'env/stats_stub.cpp', 'env/uuid_stub.cpp', 'harness/common/scripted.cpp']
+H['kill'] = dict(
+    props=['C01', 'C03', 'C04', 'C17'], dir='harness/kill',
+    oomd=KILL_OOMD, cxx=['h_kill.cpp'] + KILL_ENV, c=['main_kill.c', 'env/libc_stubs.c'],
+    defs={'VSTL_STR_CAP': 8, 'VSTL_VEC_MAX': 4, 'VSTL_MAP_MAX': 6, 'VFW_MAXN': 5, 'VFW_MAXPIDS': 2, 'VF_CFG_N': 12},
+    unwind=9, timeout=1500,
+    functions=['Oomd::BaseKillPlugin::', 'Oomd::OomdContext::', 'Oomd::CgroupContext::', 'Oomd::CgroupPath::'],
+    variants={
+        'quick': [
+            dict(name='star_n3', defs={'H_NODES': 3, 'H_PAT': 1, 'H_NPIDS': 2, 'H_NO_KERNELKILL': 1}, props=['C01', 'C03', 'C17'], reach_optional=True),
+            dict(name='star_n5', defs={'H_NODES': 5, 'H_PAT': 1, 'H_NPIDS': 1, 'H_NO_KERNELKILL': 1}, props=['C01', 'C03', 'C17'], reach_optional=True),
+            dict(name='kk_n3', defs={'H_NODES': 3, 'H_PAT': 2, 'H_NPIDS': 1, 'H_KERNELKILL': 1}, props=['C01', 'C17'], reach_optional=True),
+            dict(name='drywet_n3', defs={'H_NODES': 3, 'H_PAT': 1, 'H_NPIDS': 1, 'H_MODE': 1, 'H_NO_KERNELKILL': 1}, props=['C04'], reach_optional=True),
+        ],
+        'thorough': [
+            dict(name='star_n5p2', defs={'H_NODES': 5, 'H_PAT': 1, 'H_NPIDS': 2, 'H_NO_KERNELKILL': 1}, props=['C01', 'C03', 'C17'], reach_optional=True, timeout=3000),
+            dict(name='sub_n5', defs={'H_NODES': 5, 'H_PAT': 3, 'H_NPIDS': 2, 'H_NO_KERNELKILL': 1}, props=['C01', 'C03', 'C17'], reach_optional=True, timeout=3000),
+            dict(name='a_n5', defs={'H_NODES': 5, 'H_PAT': 0, 'H_NPIDS': 2}, props=['C01', 'C03', 'C17'], reach_optional=True, timeout=3000),
+            dict(name='kk_n5', defs={'H_NODES': 5, 'H_PAT': 1, 'H_NPIDS': 1, 'H_KERNELKILL': 1}, props=['C01', 'C17'], reach_optional=True, timeout=3000),
+            dict(name='drywet_n5', defs={'H_NODES': 5, 'H_PAT': 1, 'H_NPIDS': 1, 'H_MODE': 1}, props=['C04'], reach_optional=True, timeout=3000),
+        ],
     },
 )
 
